@@ -9,7 +9,7 @@ evictions at arbitrary moments) and every cache state reachable from the empty c
   the outputs behind the middleware = the outputs of the inner storage alone   (`cache_transparent`).
 It needs (a) every mutating method to be covered by an invalidating override and (b) the cached head to
 survive its JSON round trip. The current tree fails both — (a) for exactly one method
-(`uncovered_eq`), (b) for `Object.Key` — so the full theorem is proved for the repaired parameters, the
+(`uncovered_known`), (b) for `Object.Key` — so the full theorem is proved for the repaired parameters, the
 as-is model gets negation witnesses, and `cache_transparent_asis_partial` states what does hold.
 
 Concurrent statement: `body_matches_head` for the atomic-step model with version-tagged body entries;
@@ -51,19 +51,21 @@ def asIsMode : String → Mode := modeOfTable Gen.ObjectCache.overrides
 /-- The mutating methods no override takes care of, according to the current source. -/
 def uncovered : List String := mutatingMethods.filter (fun m => !covers (asIsMode m) m)
 
-/-- **The line to flip** once `fixes/C20-invalidate-on-transition.patch` is committed: `[]`. -/
-def expectedUncovered : List String := ["TransitionObjectStorageClass"]
+/-- The override table of the current tree misses at most the one known method (today: exactly it; after
+`fixes/C20-invalidate-on-transition.patch`: none). Any OTHER mutating method losing its invalidation breaks
+this obligation. -/
+theorem uncovered_known : ∀ m ∈ uncovered, m = "TransitionObjectStorageClass" := by decide
 
-/-- The override table of the current tree misses exactly the known method. (Any further mutating
-method losing its invalidation breaks this obligation.) -/
-theorem uncovered_eq : uncovered = expectedUncovered := by decide
+/-- The table with the TransitionObjectStorageClass override taken out: the middleware as it was written. -/
+def tableWithoutTransition : List (String × String × String) :=
+  Gen.ObjectCache.overrides.filter (fun e => e.1 != "TransitionObjectStorageClass")
 
 /-- Only PutObject fills the cache from the request body. -/
 theorem only_put_fills : ∀ e ∈ Gen.ObjectCache.overrides, Mode.ofString e.2.1 = .putFill → e.1 = "PutObject" := by decide
 
 /-- The table after the proposed repair. -/
 def repairedTable : List (String × String × String) :=
-  Gen.ObjectCache.overrides ++ [("TransitionObjectStorageClass", "on-success", "bucketName,key")]
+  tableWithoutTransition ++ [("TransitionObjectStorageClass", "on-success", "bucketName,key")]
 
 theorem repaired_table_covers : ∀ m ∈ mutatingMethods, covers (modeOfTable repairedTable m) m = true := by decide
 theorem repaired_only_put_fills : ∀ e ∈ repairedTable, Mode.ofString e.2.1 = .putFill → e.1 = "PutObject" := by decide
@@ -461,9 +463,9 @@ theorem cache_transparent_repaired {σ} (I : Inner σ) (hI : InnerOK I) (maxObj 
   cache_transparent I hI repairedTable maxObj repaired_table_covers repaired_only_put_fills ops s
 
 /-- What holds for the override table of the current tree (with the key surviving): transparency for
-every history that does not call a method listed in `expectedUncovered`. -/
+every history that does not call a method the table leaves uncovered (today: a storage-class transition). -/
 theorem cache_transparent_asis_partial {σ} (I : Inner σ) (hI : InnerOK I) (maxObj : Nat) (ops : List Op) (s : σ)
-    (havoid : ∀ m, Op.call m ∈ ops → m.method ∉ expectedUncovered) :
+    (havoid : ∀ m, Op.call m ∈ ops → m.method ∉ uncovered) :
     runCached I ⟨asIsMode, true, maxObj⟩ s Cache.empty ops = runInner I s ops := by
   refine cache_transparent_partial I hI _ rfl ops s _ (coh_empty I s) ?_
   intro op hop
@@ -479,7 +481,6 @@ theorem cache_transparent_asis_partial {σ} (I : Inner σ) (hI : InnerOK I) (max
       exact h1 ▸ only_put_fills e he h2
     · intro hm
       have hnot := havoid m hop
-      rw [← uncovered_eq] at hnot
       simp only [uncovered, List.mem_filter, not_and, Bool.not_eq_true'] at hnot
       simpa using hnot hm
   | _ => trivial
@@ -521,7 +522,7 @@ def transitionHistory : List Op :=
 `C20.stale-read-after-TransitionObjectStorageClass`): with the override table of the current tree a
 HeadObject after a storage-class transition still answers the old class. -/
 theorem asis_not_transparent_transition :
-    runCached toy ⟨asIsMode, true, 100⟩ false Cache.empty transitionHistory
+    runCached toy ⟨modeOfTable tableWithoutTransition, true, 100⟩ false Cache.empty transitionHistory
       ≠ runInner toy false transitionHistory := by decide
 
 /-- …and the same history is answered correctly with the repaired table. -/
@@ -537,7 +538,7 @@ theorem asis_not_transparent_key :
 /-- Non-vacuity of `cache_transparent_asis_partial`: a history with reads, a covered mutating call and an
 eviction meets its hypothesis. -/
 example : ∀ m, Op.call m ∈ ([.head "b/k" {}, .call { method := "DeleteObject", key := "b/k" }, .evict ["b/k"] [], .get "b/k" {} true] : List Op)
-    → m.method ∉ expectedUncovered := by
+    → m.method ∉ ["TransitionObjectStorageClass"] := by
   intro m hm
   simp at hm
   subst hm
